@@ -17,7 +17,9 @@
    Invariant Agree: after every history the coded lookups equal the reference.          *)
 EXTENDS Naturals, Sequences, FiniteSets, TLC
 
-CONSTANTS Names, Values, MaxOps
+CONSTANTS Names, Values, MaxOps,
+          ReadShapes,         \* the name lists `read` is used with (sequences over Names)
+          ReadMax             \* the input line holds 0..ReadMax fields (<= 4)
 Unset == "<unset>"
 Dirs == {"R", "A", "B", "H"}                 \* R/ , R/a , R/a/b , R/h ($HOME)
 Parent(d) == CASE d = "B" -> "A" [] d = "A" -> "R" [] d = "H" -> "R" [] OTHER -> "R"
@@ -57,12 +59,25 @@ Export(n, v) == /\ Tick([op |-> "export", n |-> n, v |-> v], 0)
 UnsetVar(n)  == /\ Tick([op |-> "unset", n |-> n], 0)
                 /\ penv' = [penv EXCEPT ![n] = Unset] /\ shv' = [shv EXCEPT ![n] = Unset]
                 /\ ref' = [ref EXCEPT ![n] = [val |-> Unset, exp |-> FALSE]] /\ DirsUnch
-\* read n1 n2 <<< "f1 f2 f3": n1 := f1, n2 := "f2 f3"   (values: the fixed fields "x", "y z")
-Read2(n1, n2) == /\ n1 # n2 /\ Tick([op |-> "read", n1 |-> n1, n2 |-> n2], 0)
-                 /\ LET r1 == SetEnv(shv, penv, n1, "x")
-                        r2 == SetEnv(r1[1], r1[2], n2, "y z")
-                    IN shv' = r2[1] /\ penv' = r2[2]
-                 /\ ref' = RefAssign(RefAssign(ref, n1, "x"), n2, "y z") /\ DirsUnch
+\* read n_1 .. n_k <<< "f_1 .. f_m": n_i := f_i for i < k (the empty string when the line has fewer fields), n_k := the
+\* remaining fields f_k .. f_m joined by one blank (empty when none is left) - builtins/read.rs assigns in this order with
+\* set_env, so a name that occurs twice keeps its last assignment.  The line is a prefix of the fixed fields x y z w.
+Fields == <<"x", "y", "z", "w">>
+JoinFrom(i, m) == IF i > m THEN ""
+                  ELSE CASE i = 1 /\ m = 1 -> "x" [] i = 1 /\ m = 2 -> "x y" [] i = 1 /\ m = 3 -> "x y z" [] i = 1 /\ m = 4 -> "x y z w"
+                         [] i = 2 /\ m = 2 -> "y" [] i = 2 /\ m = 3 -> "y z" [] i = 2 /\ m = 4 -> "y z w"
+                         [] i = 3 /\ m = 3 -> "z" [] i = 3 /\ m = 4 -> "z w" [] OTHER -> "w"
+ReadVals(k, m) == [i \in 1..k |-> IF i < k THEN (IF i <= m THEN Fields[i] ELSE "") ELSE JoinFrom(k, m)]
+RECURSIVE SetAll(_, _, _, _, _)
+SetAll(sv, pe, ns, vs, i) == IF i > Len(ns) THEN <<sv, pe>>
+                             ELSE LET r == SetEnv(sv, pe, ns[i], vs[i]) IN SetAll(r[1], r[2], ns, vs, i + 1)
+RECURSIVE RefAll(_, _, _, _)
+RefAll(r, ns, vs, i) == IF i > Len(ns) THEN r ELSE RefAll(RefAssign(r, ns[i], vs[i]), ns, vs, i + 1)
+ReadN(ns, m) == /\ Tick([op |-> "read", ns |-> ns, m |-> m], 0)
+                /\ LET vs == ReadVals(Len(ns), m)
+                       r == SetAll(shv, penv, ns, vs, 1)
+                   IN shv' = r[1] /\ penv' = r[2] /\ ref' = RefAll(ref, ns, vs, 1)
+                /\ DirsUnch
 
 \* ---- cd ----
 Target(from, prev, a) ==
@@ -88,7 +103,7 @@ Cd(a) == /\ (a = "up" => cwd # "R")
 
 Next == \/ \E n \in Names, v \in Values : Assign(n, v) \/ Prefix(n, v) \/ Export(n, v)
         \/ \E n \in Names : UnsetVar(n)
-        \/ \E n1, n2 \in Names : Read2(n1, n2)
+        \/ \E ns \in ReadShapes, m \in 0..ReadMax : ReadN(ns, m)
         \/ \E a \in CdArgs : Cd(a)
 Spec == Init /\ [][Next]_vars
 
